@@ -487,6 +487,21 @@ def _callback_rule(repo, L, cb, finder):
             ok5 = len(bound & used) >= 2 or bool(tgt_names & used)
             why5 = "the message does not show both fragments of the pair"
     L.check(ok5, "R5", rep.short, "one message per recorded pair showing both fragments", why5, rep.loc())
+    if ok5 and len(loops) == 1:
+        # each fragment is shown with the scaffold it was recorded with: `f1, s1 = pr[0]; f2, s2 = pr[1]` -- every unpacked name
+        # must appear in the message, none twice in place of another
+        lp = loops[0]
+        unpack = [s_ for s_ in lp.body if isinstance(s_, ast.Assign) and isinstance(s_.targets[0], ast.Tuple) and len(s_.targets[0].elts) == 2 and all(isinstance(e_, ast.Name) for e_ in s_.targets[0].elts) and isinstance(s_.value, ast.Subscript)]
+        if len(unpack) == 2:
+            names = [e_.id for s_ in unpack for e_ in s_.targets[0].elts]
+            echo = [c for s_ in lp.body for c in [s_, *walk_shallow(s_)] if isinstance(c, ast.Call) and (dotted(c.func) or "").endswith(("echo", "print", "write"))]
+            cnt = {nm: sum(1 for c in echo for x in ast.walk(c) if isinstance(x, ast.Name) and x.id == nm) for nm in names}
+            unused = [nm for nm, k in cnt.items() if k == 0]
+            twice = [nm for nm, k in cnt.items() if k > 1]
+            if unused and twice:
+                L.fail("R5", rep.short + ":attribution", f"the message shows '{twice[0]}' twice and never '{unused[0]}': one fragment of each pair is reported with the other fragment's scaffold (cross-scaffold overlaps read as overlaps inside one scaffold)", rep.loc(echo[0]) if echo else rep.loc())
+            else:
+                L.ok("R5", rep.short + ":attribution", "each fragment of a pair is shown with its own scaffold", rep.loc())
     # process_fh: report called with the finder's result under the qc flag — decided per path: every path on which the
     # qc flag is true and the scan result is truthy calls the reporter with that result; no path calls it otherwise
     from ..flow import cond_facts as _cf
